@@ -233,6 +233,22 @@ def run_sim(argv, files, chooser, capacity=65536, feeder=True, step_cap=K.STEP_C
     simfs.populate(files)
     import os
 
+    devfds = []
+    if env.get("devfd_paths") and all(len(files[p]) <= (1 << 20) - 4096 for p in env["devfd_paths"]):
+        # process substitution, 'cutadapt ... <(producer)': each input is a pipe named /dev/fd/N
+        import fcntl
+
+        mapping = {}
+        for p in env["devfd_paths"]:
+            r_, w_ = os.pipe()
+            try:
+                fcntl.fcntl(w_, 1031, 1 << 20)  # F_SETPIPE_SZ
+                os.write(w_, files[p])
+            finally:
+                os.close(w_)
+            devfds.append(r_)
+            mapping[p] = f"/dev/fd/{r_}"
+        argv = [mapping.get(a, a) for a in argv]
     saved_cwd = os.getcwd()
     if env.get("relpaths"):
         # the user works inside the data directory: every path on the command line is relative
@@ -278,6 +294,11 @@ def run_sim(argv, files, chooser, capacity=65536, feeder=True, step_cap=K.STEP_C
             res.progress = "".join(getattr(sys.stderr, "progress", []))
             sys.argv = saved_argv
             os.chdir(saved_cwd)
+            for fd_ in devfds:
+                try:
+                    os.close(fd_)
+                except OSError:
+                    pass
             stdin_objects = list(kern.images.stdin_of.values()) + [sys.stdin]
             sys.stdin, sys.stdout, sys.stderr = saved_std
             _close_stdin(stdin_fd, stdin_ident, stdin_objects)
@@ -297,6 +318,11 @@ def run_sim(argv, files, chooser, capacity=65536, feeder=True, step_cap=K.STEP_C
     res.exit = main.exitcode if kern.outcome == "finished" else None
     res.files = simfs.snapshot()
     res.stdout = out_buf.getvalue().replace(simfs.root().encode() + b"/", simfs.PREFIX.encode())
+    if devfds:
+        # descriptor numbers are an accident of the process: keep them out of everything that is compared
+        res.stdout = _DEVFD_RE.sub(b"/dev/fd/N", res.stdout)
+        res.stderr = _DEVFD_RE.sub(b"/dev/fd/N", res.stderr.encode()).decode()
+        res.files = {p: (_DEVFD_RE.sub(b"/dev/fd/N", d) if p.endswith(".json") else d) for p, d in res.files.items()}
     res.choices = kern.choices
     res.enabled_sizes = kern.enabled_sizes
     res.steps = kern.step
@@ -314,6 +340,8 @@ def run_sim(argv, files, chooser, capacity=65536, feeder=True, step_cap=K.STEP_C
     res.main_exc = main.exc_text
     res.markers = kern.markers
     res.error_logs = [simfs.to_sim(m) for m in recorder.messages]
+    if devfds:
+        res.error_logs = [_DEVFD_RE.sub(b"/dev/fd/N", m.encode()).decode() for m in res.error_logs]
     res.alive_at_end = getattr(kern, "alive_at_main_exit", [])
     h = hashlib.sha1()
     for ev in kern.log:
@@ -326,6 +354,7 @@ def run_sim(argv, files, chooser, capacity=65536, feeder=True, step_cap=K.STEP_C
 import re as _re
 
 _SCRATCH_RE = _re.compile(r"cutadapt-verif-src-\d+-\w+")
+_DEVFD_RE = _re.compile(rb"/dev/fd/\d+")
 _ADDR_RE = _re.compile(rb"0x[0-9a-f]{8,}")  # object addresses in --debug output
 
 
